@@ -75,11 +75,11 @@ func c04show(target *onet.TreeNode, ds []fix.Delivery) string {
 		var items []string
 		for _, it := range d.Items {
 			src := "?"
-			if it.Node != nil && it.Node == target.Parent {
+			if it.Node != nil && target.Parent != nil && it.Node.ID.Equal(target.Parent.ID) {
 				src = "p"
-			} else {
+			} else if it.Node != nil {
 				for i, c := range target.Children {
-					if c == it.Node {
+					if c.ID.Equal(it.Node.ID) {
 						src = strconv.Itoa(i)
 					}
 				}
@@ -130,6 +130,23 @@ func c04exec(c *h.Ctx, cs *h.Case) {
 			k, _ = strconv.Atoi(tk[3])
 			ct = f.tree(isRoot, k)
 			to = fix.TokenFor(ct.t, ct.target, round)
+			cs.Impl = append(cs.Impl, "ok")
+		case len(tk) == 2 && tk[1] == "rereg":
+			// the server learns an equal copy of the tree again (every service that generates its
+			// tree per run does this): the stored Tree object is replaced, the tree is the same
+			var nt *onet.Tree
+			if isRoot {
+				parent := []int{-1}
+				member := []int{0}
+				for i := 0; i < k; i++ {
+					parent = append(parent, 0)
+					member = append(member, i+1)
+				}
+				nt, _ = fix.BuildTree(f.cl.Roster, parent, member)
+			} else {
+				nt, _ = fix.Fan(f.cl.Roster, k)
+			}
+			f.cl.Overlay(ct.srv).RegisterTree(nt)
 			cs.Impl = append(cs.Impl, "ok")
 		case len(tk) == 5 && tk[1] == "msg":
 			ty, _ := strconv.Atoi(tk[2])
@@ -198,6 +215,9 @@ func c04gen(c *h.Ctx, yield func(*h.Case)) {
 		cs.Ops = append(cs.Ops, fmt.Sprintf("c04 cfg %s %d 1,2", rs, k))
 		body(func(ty int, src string) {
 			val++
+			if val%7 == 3 {
+				cs.Ops = append(cs.Ops, "c04 rereg")
+			}
 			cs.Ops = append(cs.Ops, fmt.Sprintf("c04 msg %d %s %d", ty, src, val))
 		})
 		c.Count(fmt.Sprintf("class=%s", class))
